@@ -3,8 +3,22 @@ How a counterexample of the Lean-side search (translator/gen_search.py: regenera
 replayed on the REAL implementation through konst's public API, against the std counterpart the property names.
 Entry:  <Extracted name> : (argument kinds, konst expression, std expression [, skip condition])
 Argument kinds: bytes (&[u8]), str (&str; the bytes must be valid UTF-8, otherwise the input is outside every
-property's domain and the counterexample is dropped), usize, u32, u8, char, chars (the `this` field of a Chars state).
+property's domain and the counterexample is dropped), usize, u32, u8, char, chars (the `this` field of a Chars state);
+built from the Lean repr by vlib/xsearch.py (`STRUCTURED`, `parser_binding`):
+  opt_u32 / opt_u8 / opt_opt_u32 (`none`, `some n`, `some (some n)` -> Option<…>), res_u32_u8 (`Except.ok n` /
+  `Except.error e` -> Result<u32, u8>), u32s (`[1, 2]` -> &[u32]), u32ss (`[[1], []]` -> &[&[u32]]), pair_u32
+  (`(1, 2)` -> (u32, u32)), arr_u32 / arr_ref_u32 (a list of exactly N elements -> [u32; N] / &[u32; N]; the const
+  generics of the counterexample, `N=3`, are `const N: usize = 3;` in the block), parser (the repr of an
+  `Extracted.Parser` structure -> `a<i> = Parser::with_start_offset(a<i>_s, a<i>_off)`; dropped unless the direction
+  and the split flag are the ones that constructor sets, the bytes are UTF-8 and start_offset + len < 2^32).
 Both expressions are evaluated under catch_unwind and compared through `{:?}`.
+
+PROBE FUNCTIONS (groups Probes*, translator/probes/src/lib.rs).  The replay program is compiled against /repo's
+konst only (the probe crate is not linked), so the konst expression of a probe is the MACRO INVOCATION of the probe's
+body, textually (parameter names replaced by a0, a1, …), and the std expression is the std chain / method the
+`_std` / `_eq` theorem of lean/KonstVerif/Extracted/Equiv/Probes*.lean states.  A probe fixes its closures and
+literals: a change of a macro that only shows with other closures changes the regenerated text (the theorem breaks)
+but has no counterexample here.
 """
 
 PRELUDE = r'''
@@ -18,9 +32,152 @@ fn btem<'a>(mut h: &'a [u8], n: &[u8]) -> &'a [u8] { if n.is_empty() { return h 
 fn clamp_from(s: &str, i: usize) -> &str { if i >= s.len() { "" } else { &s[i..] } }
 fn clamp_up_to(s: &str, i: usize) -> &str { if i >= s.len() { s } else { &s[..i] } }
 fn clamp_range(s: &str, a: usize, b: usize) -> &str { let e = clamp_up_to(s, b); if a >= e.len() { "" } else { &e[a..] } }
+// ---- std side of the parser_method! probes: str functions on the remainder; (value, remainder, start_offset, direction).
+// match-like forms: first listed alternative at the earliest (find) / latest-ending (rfind) position; default 9 leaves
+// the parser as it is (direction of Parser::with_start_offset = FromStart)
+use konst::parsing::{ParseDirection as PD, ErrorKind as EK};
+const PM_ARMS: [(&str, u32); 3] = [("ab", 0), ("a", 0), ("b", 1)];
+const PM_TRIM: [&str; 3] = ["ab", "a", "b\u{e9}"];
+fn pm_strip_prefix_std(s: &str, off: usize) -> (u32, &str, usize, PD) {
+    for (l, v) in PM_ARMS { if let Some(r) = s.strip_prefix(l) { return (v, r, off + l.len(), PD::FromStart) } }
+    (9, s, off, PD::FromStart) }
+fn pm_strip_suffix_std(s: &str, off: usize) -> (u32, &str, usize, PD) {
+    for (l, v) in PM_ARMS { if let Some(r) = s.strip_suffix(l) { return (v, r, off, PD::FromEnd) } }
+    (9, s, off, PD::FromStart) }
+fn pm_find_skip_std(s: &str, off: usize) -> (u32, &str, usize, PD) {
+    for p in 0..=s.len() { if !s.is_char_boundary(p) { continue }
+        for (l, v) in PM_ARMS { if s[p..].starts_with(l) { let e = p + l.len(); return (v, &s[e..], off + e, PD::FromStart) } } }
+    (9, s, off, PD::FromStart) }
+fn pm_rfind_skip_std(s: &str, off: usize) -> (u32, &str, usize, PD) {
+    for e in (0..=s.len()).rev() { if !s.is_char_boundary(e) { continue }
+        for (l, v) in PM_ARMS { if s[..e].ends_with(l) { return (v, &s[..e - l.len()], off, PD::FromEnd) } } }
+    (9, s, off, PD::FromStart) }
+fn pm_trim_start_std(mut s: &str, mut off: usize) -> (&str, usize, PD) {
+    'o: loop { for l in PM_TRIM { if let Some(r) = s.strip_prefix(l) { off += l.len(); s = r; continue 'o } } break }
+    (s, off, PD::FromStart) }
+fn pm_trim_end_std(mut s: &str, off: usize) -> (&str, usize, PD) {
+    'o: loop { for l in PM_TRIM { if let Some(r) = s.strip_suffix(l) { s = r; continue 'o } } break }
+    (s, off, PD::FromEnd) }
+// Parser::parse_u8 by std: the longest prefix of ascii digits through str::parse
+fn parse_u8_std(s: &str, off: usize) -> Result<(u8, &str, usize), EK> {
+    let n = s.bytes().take_while(|b| b.is_ascii_digit()).count();
+    match s[..n].parse::<u8>() { Ok(v) => Ok((v, &s[n..], off + n)), Err(_) => Err(EK::ParseInteger) } }
 '''
 
 B = "bytes"; S = "str"; U = "usize"
+L = "u32s"; LL = "u32ss"; O = "opt_u32"; R = "res_u32_u8"; P = "parser"; W = "u32"
+
+# the alternatives of the parser_method! probes, as written in translator/probes/src/lib.rs
+_PM_MATCH = '"ab" | "a" => 0u32, "b" => 1, _ => 9'
+_PM_TRIM = r'"ab" | "a" | "b\u{e9}"'
+
+
+def _pm_match(method):
+    return ([P], "{ let mut p = a0; let v = konst::parser_method!{p, " + method + "; " + _PM_MATCH + " }; "
+            "(v, p.remainder(), p.start_offset(), p.parse_direction()) }", f"pm_{method}_std(a0_s, a0_off)")
+
+
+def _pm_trim(method, std):
+    return ([P], "{ let mut p = a0; konst::parser_method!{p, " + method + "; " + _PM_TRIM + " }; "
+            "(p.remainder(), p.start_offset(), p.parse_direction()) }", f"{std}(a0_s, a0_off)")
+
+
+PROBES = {
+    # ---- ProbesIter (C10): iter::eval! / for_each! chains over &[u32] with the probe's closures
+    "it_fold_filter_map": ([L], "konst::iter::eval!(a0, copied(), filter(|x| *x % 2 == 0), map(|x| x / 2), fold(0u32, |a, b| a ^ b))",
+                           "a0.iter().copied().filter(|x| *x % 2 == 0).map(|x| x / 2).fold(0u32, |a, b| a ^ b)"),
+    "it_take_next": ([L, U], "konst::iter::eval!(a0, copied(), take(a1), next())", "a0.iter().copied().take(a1).next()"),
+    "it_skip_count": ([L, U], "konst::iter::eval!(a0, skip(a1), count())", "a0.iter().skip(a1).count()"),
+    # known finding F7 (take before a reversal acts on the reversed stream): only the region where both agree
+    "it_take_rev_next": ([L], "konst::iter::eval!(a0, copied(), take(2), rev(), next())", "a0.iter().copied().take(2).rev().next()",
+                         "a0.len() > 2"),
+    "it_rev_find": ([L, W], "konst::iter::eval!(a0, copied(), rev(), find(|x| *x == a1))", "a0.iter().copied().rev().find(|x| *x == a1)"),
+    "it_position": ([L, W], "konst::iter::eval!(a0, copied(), position(|x| x == a1))", "a0.iter().copied().position(|x| x == a1)"),
+    # konst's rposition counts from the back (documented): std's position on the reversed iterator
+    "it_rposition": ([L, W], "konst::iter::eval!(a0, copied(), rposition(|x| x == a1))", "a0.iter().copied().rev().position(|x| x == a1)"),
+    "it_all": ([L, W], "konst::iter::eval!(a0, copied(), all(|x| x < a1))", "a0.iter().copied().all(|x| x < a1)"),
+    "it_any": ([L, W], "konst::iter::eval!(a0, copied(), any(|x| x == a1))", "a0.iter().copied().any(|x| x == a1)"),
+    "it_nth": ([L, U], "konst::iter::eval!(a0, copied(), nth(a1))", "a0.iter().copied().nth(a1)"),
+    "it_take_while_skip_while_count": ([L, W, W], "konst::iter::eval!(a0, copied(), skip_while(|x| *x < a1), take_while(|x| *x < a2), count())",
+                                       "a0.iter().copied().skip_while(|x| *x < a1).take_while(|x| *x < a2).count()"),
+    "it_enumerate_find_map": ([L, W], "konst::iter::eval!(a0, copied(), enumerate(), find_map(|(i, x)| if x == a1 { Some(i) } else { None }))",
+                              "a0.iter().copied().enumerate().find_map(|(i, x)| if x == a1 { Some(i) } else { None })"),
+    "it_filter_map_rfold": ([L], "konst::iter::eval!(a0, copied(), filter_map(|x| if x % 3 == 0 { None } else { Some(x % 7) }), rfold(1u32, |a, b| (a * 3 + b) % 1000))",
+                            "a0.iter().copied().filter_map(|x| if x % 3 == 0 { None } else { Some(x % 7) }).rfold(1u32, |a, b| (a * 3 + b) % 1000)"),
+    "it_flat_map_count": ([LL, W], "konst::iter::eval!(a0, flat_map(|xs| *xs), copied(), filter(|x| *x == a1), count())",
+                          "a0.iter().flat_map(|xs| *xs).copied().filter(|x| *x == a1).count()"),
+    "it_flatten_nth": ([LL, U], "konst::iter::eval!(a0, copied(), flatten(), copied(), nth(a1))", "a0.iter().copied().flatten().copied().nth(a1)"),
+    "it_for_each_sum": ([L], "{ let mut s = 0u32; konst::iter::for_each!{x in a0, copied(), skip(1) => s = s ^ x; } s }",
+                        "{ let mut s = 0u32; for x in a0.iter().copied().skip(1) { s = s ^ x; } s }"),
+    # ---- ProbesOpt (C19): option / result / try macros
+    "op_unwrap_or": ([O, W], "konst::option::unwrap_or!(a0, a1)", "a0.unwrap_or(a1)"),
+    "op_unwrap_or_else": ([O, W], "konst::option::unwrap_or_else!(a0, || a1 + 1)", "a0.unwrap_or_else(|| a1 + 1)"),
+    "op_ok_or": ([O, "u8"], "{ let r: Result<u32, u8> = konst::option::ok_or!(a0, a1); r }", "a0.ok_or(a1)"),
+    "op_ok_or_else": ([O, "u8"], "{ let r: Result<u32, u8> = konst::option::ok_or_else!(a0, || a1); r }", "a0.ok_or_else(|| a1)"),
+    "op_map": ([O], "konst::option::map!(a0, |x| x / 2)", "a0.map(|x| x / 2)"),
+    "op_and_then": ([O], "konst::option::and_then!(a0, |x| if x % 2 == 0 { Some(x / 2) } else { None })",
+                    "a0.and_then(|x| if x % 2 == 0 { Some(x / 2) } else { None })"),
+    "op_or_else": ([O, W], "konst::option::or_else!(a0, || Some(a1))", "a0.or_else(|| Some(a1))"),
+    "op_flatten": (["opt_opt_u32"], "konst::option::flatten!(a0)", "a0.flatten()"),
+    "op_filter": ([O], "konst::option::filter!(a0, |x| *x % 2 == 0)", "a0.filter(|x| *x % 2 == 0)"),
+    "rs_unwrap_or": ([R, W], "konst::result::unwrap_or!(a0, a1)", "a0.unwrap_or(a1)"),
+    "rs_unwrap_or_else": ([R], "konst::result::unwrap_or_else!(a0, |e| e as u32)", "a0.unwrap_or_else(|e| e as u32)"),
+    "rs_ok": ([R], "konst::result::ok!(a0)", "a0.ok()"),
+    "rs_err": ([R], "konst::result::err!(a0)", "a0.err()"),
+    "rs_map": ([R], "konst::result::map!(a0, |x| x / 2)", "a0.map(|x| x / 2)"),
+    "rs_map_err": ([R], "konst::result::map_err!(a0, |e| e as u32)", "a0.map_err(|e| e as u32)"),
+    "rs_and_then": ([R], "konst::result::and_then!(a0, |x| if x % 2 == 0 { Ok(x / 2) } else { Err(7) })",
+                    "a0.and_then(|x| if x % 2 == 0 { Ok(x / 2) } else { Err(7) })"),
+    "rs_or_else": ([R], "{ let r: Result<u32, u32> = konst::result::or_else!(a0, |e| if e == 0 { Ok(0) } else { Err(e as u32) }); r }",
+                   "a0.or_else(|e| if e == 0 { Ok(0) } else { Err(e as u32) })"),
+    # std has no Result::unwrap_err_or_else: the documented meaning (the error, or the closure on the Ok value)
+    "rs_unwrap_err_or_else": ([R], "konst::result::unwrap_err_or_else!(a0, |x| (x % 256) as u8)",
+                              "match a0 { Err(e) => e, Ok(x) => (|x: u32| (x % 256) as u8)(x) }"),
+    "tr_try": ([R], "(|| -> Result<u32, u8> { let x = konst::try_!(a0); Ok(x / 2) })()", "(|| -> Result<u32, u8> { let x = a0?; Ok(x / 2) })()"),
+    "tr_try_opt": ([O], "(|| -> Option<u32> { let x = konst::try_opt!(a0); Some(x / 2) })()", "(|| -> Option<u32> { let x = a0?; Some(x / 2) })()"),
+    # ---- ProbesPm (C18): parser_method! against str functions on the remainder
+    "pm_strip_prefix": _pm_match("strip_prefix"),
+    "pm_strip_suffix": _pm_match("strip_suffix"),
+    "pm_find_skip": _pm_match("find_skip"),
+    "pm_rfind_skip": _pm_match("rfind_skip"),
+    "pm_trim_start_matches": _pm_trim("trim_start_matches", "pm_trim_start_std"),
+    "pm_trim_end_matches": _pm_trim("trim_end_matches", "pm_trim_end_std"),
+    # ---- ProbesMisc (C16, C19, C10): comparison / min-max / rebind macros, eval! over string iterators
+    "mm_min": ([W, W], "konst::min!(a0, a1)", "std::cmp::min(a0, a1)"),
+    "mm_max": ([W, W], "konst::max!(a0, a1)", "std::cmp::max(a0, a1)"),
+    "mm_min_by_key": (["pair_u32", "pair_u32"], "konst::min_by_key!(a0, a1, |p| p.0)", "std::cmp::min_by_key(a0, a1, |p| p.0)"),
+    "mm_max_by_key": (["pair_u32", "pair_u32"], "konst::max_by_key!(a0, a1, |p| p.0)", "std::cmp::max_by_key(a0, a1, |p| p.0)"),
+    "cm_eq_slices": ([B, B], "konst::const_eq!(a0, a1)", "a0 == a1"),
+    "cm_cmp_u32": ([W, W], "konst::const_cmp!(a0, a1)", "a0.cmp(&a1)"),
+    "cm_eq_str": ([S, S], "konst::const_eq!(a0, a1)", "a0 == a1"),
+    "cm_eq_opt": (["opt_u8", "opt_u8"], "konst::const_eq_for!(option; a0, a1)", "a0 == a1"),
+    "cm_cmp_slice_for": ([B, B], "konst::const_cmp_for!(slice; a0, a1)", "a0.cmp(a1)"),
+    "rb_try_rebind": ([P], "(|| { let mut p = a0; let x; konst::try_rebind!{(x, p) = p.parse_u8()} "
+                           "Ok::<_, konst::parsing::ParseError<'_>>((x, p.remainder(), p.start_offset())) })().map_err(|e| e.kind())",
+                      "parse_u8_std(a0_s, a0_off)"),
+    "rb_rebind_if_ok": ([P], "{ let mut p = a0; let mut x = 0u8; konst::rebind_if_ok!{(x, p) = p.parse_u8()} (x, p.remainder(), p.start_offset()) }",
+                        "match parse_u8_std(a0_s, a0_off) { Ok(t) => t, Err(_) => (0u8, a0_s, a0_off) }"),
+    "it_split_count": ([S], 'konst::iter::eval!(konst::string::split(a0, ","), count())', 'a0.split(",").count()'),
+    "it_chars_count": ([S], "konst::iter::eval!(konst::string::chars(a0), filter(|c| *c == 'a'), count())", "a0.chars().filter(|c| *c == 'a').count()"),
+    # the library functions the comparison probes call (group ProbesMisc)
+    "cmp_u32": ([W, W], "konst::primitive::cmp::cmp_u32(a0, a1)", "a0.cmp(&a1)"),
+    "CmpWrapper_u8.const_eq": (["u8", "u8"], "konst::cmp::CmpWrapper(a0).const_eq(&a1)", "a0 == a1"),
+    "CmpWrapper_u8.const_cmp": (["u8", "u8"], "konst::cmp::CmpWrapper(a0).const_cmp(&a1)", "a0.cmp(&a1)"),
+    "CmpWrapper_u32.const_eq": ([W, W], "konst::cmp::CmpWrapper(a0).const_eq(&a1)", "a0 == a1"),
+    "CmpWrapper_u32.const_cmp": ([W, W], "konst::cmp::CmpWrapper(a0).const_cmp(&a1)", "a0.cmp(&a1)"),
+    "CmpWrapper_bytes.const_eq": ([B, B], "konst::cmp::CmpWrapper(a0).const_eq(&a1)", "a0 == a1"),
+    "CmpWrapper_bytes.const_cmp": ([B, B], "konst::cmp::CmpWrapper(a0).const_cmp(&a1)", "a0.cmp(a1)"),
+    "CmpWrapper_str.const_eq": ([S, S], "konst::cmp::CmpWrapper(a0).const_eq(a1)", "a0 == a1"),
+    "CmpWrapper_str.const_cmp": ([S, S], "konst::cmp::CmpWrapper(a0).const_cmp(a1)", "a0.cmp(a1)"),
+    # ---- ProbesArr (C11): array macros; `N` is the const generic of the counterexample
+    "ar_map": (["arr_u32"], "konst::array::map!(a0, |x| x / 2)", "a0.map(|x| x / 2)"),
+    "ar_map_ref": (["arr_ref_u32"], "konst::array::map!(a0, |x: u32| x % 2 == 0)", "a0.map(|x: u32| x % 2 == 0)"),
+    "ar_from_fn": ([], "{ let r: [usize; N] = konst::array::from_fn!(|i| i * 2); r }", "std::array::from_fn::<usize, N, _>(|i| i * 2)"),
+    "ar_from_fn_k": ([U], "{ let r: [usize; N] = konst::array::from_fn!(|i| i + a0); r }", "std::array::from_fn::<usize, N, _>(|i| i + a0)"),
+    "ar_map_by_val": (["arr_u32"], "konst::array::map_!(a0, |x| x / 2)", "a0.map(|x| x / 2)"),
+    "ar_from_fn_by_val": ([], "{ let r: [usize; N] = konst::array::from_fn_!(|i| i * 2); r }", "std::array::from_fn::<usize, N, _>(|i| i * 2)"),
+}
+
 
 REPLAY = {
     # ---- byte-slice search / strip / trim (C04, C05): internal function -> public wrapper
@@ -103,4 +260,5 @@ REPLAY = {
                                   "std::ffi::CStr::from_bytes_until_nul(a0).ok().map(|c| c.to_bytes_with_nul().to_vec())"),
     "cstr_from_bytes_with_nul": ([B], "konst::ffi::cstr::from_bytes_with_nul(a0).ok().map(|c| c.to_bytes_with_nul().to_vec())",
                                  "std::ffi::CStr::from_bytes_with_nul(a0).ok().map(|c| c.to_bytes_with_nul().to_vec())"),
+    **PROBES,
 }
